@@ -13,25 +13,25 @@ CHECKS = {
    text="9 000 / 300 000 rule texts from three sources (almost-valid token soup conditions, grammar rules with one random edit, valid rules) with malformed example lists; every accepted rule is optimised with 16 switch sets, matched against 43 adversarial documents (every value kind for every key, 64-bit extremes, NaN/inf, 64 KiB strings, deep objects) and validate()d: no panic, and an accepted condition mentions only existing identifiers and applies and/or/not only to predicates.",
    note="Conditions the reference parser cannot structure (unbalanced parentheses tolerated by the engine) are checked for no-panic only. The char::from_u32 matrix-key limit (> 55 295 fields in one or-group) is not attacked.", ref="DESIGN.md 4 C03"),
  "C04": dict(tech="exhaustive small-alphabet enumeration, hand-written degenerate corpus, proptest string / YAML-shape generators, in-process watchdog; thorough adds coverage-guided libFuzzer campaigns (cargo-fuzz, 4 targets)",
-   text="Every string of length <= 4 over 14 symbols as condition and as mapping key, length <= 3 (thorough 4) as pattern value under every key modifier and list position; ~170 degenerate strings in all roles; 40 000 / 1 000 000 random strings and arbitrary YAML value trees (whole rule and substituted into valid rules, nesting 1..64); thorough: libFuzzer on load_text / cond_text / pattern_text / load_structured. Oracle: Ok or Err, no panic/overflow (overflow checks compiled in), terminates within 20 s (watchdog, confirmed in fresh processes).",
+   text="Every string of length <= 4 over 14 symbols as condition and as mapping key, length <= 3 (thorough 4) as pattern value under every key modifier and list position; ~170 degenerate strings in all roles; 40 000 / 1 000 000 random strings and arbitrary YAML value trees (whole rule and substituted into valid rules, nesting 1..64); thorough: libFuzzer on load_text / cond_text / pattern_text / load_structured. Oracle: Ok or Err, no panic/overflow (overflow checks compiled in), terminates within 20 s (watchdog, confirmed in fresh processes). Rule::load on files holding rule texts intact or damaged at the byte level (truncation inside a character, stray bytes, BOM, CRLF) and arbitrary bytes: no panic, agreement with from_str for UTF-8 content, error for a missing path or a directory.",
    note="Native stack exhaustion beyond depth 64 is out of scope. libFuzzer campaigns are only approximately reproducible from a seed; the saved input is the reproducible unit and is replayed with the fuzz binary.", ref="DESIGN.md 4 C04"),
  "C05": dict(tech="exhaustive enumeration of small conditions + proptest for larger ones; structural comparison with an independent precedence-climbing parser, reference evaluation, metamorphic parenthesis/space/rename variants",
-   text="All 3 393 well-formed conditions of <= 7 tokens (thorough 8) over A B C and/or/not/() x 27 truth assignments, plus 6 000 / 200 000 larger conditions with all()/of()/cast comparisons: parsed tree equals the reference tree (not > cmp > or > and, left-assoc), three-valued results equal the reference, and full/partial parenthesisation, extra spaces and keyword-prefixed identifier names leave every verdict unchanged.",
+   text="All 3 393 well-formed conditions of <= 7 tokens (thorough 8) over A B C and/or/not/() x 27 truth assignments, plus 6 000 / 200 000 larger conditions with all()/of()/cast comparisons: parsed tree equals the reference tree (not > cmp > or > and, left-assoc), three-valued results equal the reference, and full/partial parenthesisation, extra spaces and keyword-prefixed identifier names leave every verdict unchanged. Flat chains of 8-64 operands (thorough 70) with (double) negations at the first / middle / last place; right-nested chains and towers of parentheses / not up to depth 14-16.",
    note="Associativity is pinned structurally on the unoptimised expression read through the `core` feature types.", ref="DESIGN.md 4 C05"),
  "C06": dict(tech="exhaustive enumeration of truth tables over generated rule/document pairs",
    text="Complete enumeration of every connective form x arity 1..4 (thorough 5 + nested forms) x every operand vector in {T,F,M}^k x thresholds 0..k+1; and/or/not compared as full three-valued results, all/of on truth. Exhaustive within the stated bound.",
    note="Operands are realised by documents (field equal / different / absent); three-valued results are observed through the verdicts of C and not (C).", ref="DESIGN.md 4 C06"),
  "C07": dict(tech="exhaustive small-alphabet enumeration + property-based sampling against an independent string-predicate oracle",
-   text="All needles (len 0..3) x haystacks (len 0..4) over {a,b,A} x 6 pattern spellings x case flag, all ordered pairs of 108 patterns as two-member lists (exhaustive), plus 20 000 / 400 000 sampled mixed lists with multi-byte needles; verdict must equal the OR of the members' documented relations.",
+   text="All needles (len 0..3) x haystacks (len 0..4) over {a,b,A} x 6 pattern spellings x case flag, all ordered pairs of 108 patterns as two-member lists (exhaustive), plus 20 000 / 400 000 sampled mixed lists with multi-byte needles; verdict must equal the OR of the members' documented relations. Long needles (64 bytes - 1 KiB, thorough 4 KiB) of every relation and case flag, alone and in lists.",
    note="regex crate trusted for regex members (wiring tested, not the regex engine).", ref="DESIGN.md 4 C07"),
  "C08": dict(tech="metamorphic property-based testing (quantified list vs its members as one-member rules) + reference cross-check + palette enumeration",
    text="30 000 / 500 000 generated member lists x quantifier x threshold x three syntactic forms x 6 documents, and every list of length <= 2 (thorough 3) from a 10-pattern palette: the quantified verdict must equal the count over the members' own verdicts.",
    note="Known finding K3 (mixed-batch key lists) is attributed by a syntactic signature and reported as KNOWN-FINDING; quantified lists on array-valued fields and of(..,0) with nothing definitely false are not judged.", ref="DESIGN.md 4 C08, 5"),
  "C09": dict(tech="exhaustive boundary enumeration + property-based sampling against exact-arithmetic oracle",
-   text="Every operator form x boundary constant x 58 field values (64-bit extremes, doubles incl. NaN/inf, numeric strings, wrong kinds, absent) and two-field forms over value pairs (exhaustive), plus 40 000 / 600 000 random and boundary-biased 64-bit values; results must be admissible for i128 / exact int-vs-double arithmetic.",
+   text="Every operator form x boundary constant x 58 field values (64-bit extremes, doubles incl. NaN/inf, numeric strings, wrong kinds, absent) and two-field forms over value pairs (exhaustive), plus 40 000 / 600 000 random and boundary-biased 64-bit values; results must be admissible for i128 / exact int-vs-double arithmetic. Long integer lists (runs with holes and duplicates) under plain / int / not / str keys; matrix-shaped rules with comparisons written constant-first and field-first.",
    note="Cross-kind comparisons may be false or exact; int() of a non-integral double may round either way.", ref="DESIGN.md 4 C09"),
  "C10": dict(tech="exhaustive enumeration of documents x paths against an independent resolver, metamorphic dotted-vs-nested rule forms, random-key totality (proptest)",
-   text="~2 200 documents of depth <= 3 x every path of 1..3 (thorough 4) optionally indexed segments through five document representations (26M lookups), compared by value identity with an independent resolver; dotted key vs nested-mapping rule forms vs reference; 30 000 / 300 000 random key strings for totality.",
+   text="~2 200 documents of depth <= 3 x every path of 1..3 (thorough 4) optionally indexed segments through five document representations (26M lookups), compared by value identity with an independent resolver; dotted key vs nested-mapping rule forms vs reference; 30 000 / 300 000 random key strings for totality. The lookups are repeated on decoy documents that hold literal keys spelled like path fragments (a[0], a.b, a[0][1], 0).",
    note="Only well-formed paths are compared; other keys are checked for no-panic only.", ref="DESIGN.md 4 C10"),
  "C11": dict(tech="differential property-based testing across document representations (proptest), typed std documents with boundary-biased values",
    text="6 000 / 200 000 rules x 6 documents rendered as hand-written Object, serde_yaml Mapping (built and re-read from text), serde_json Value/Map (built and re-read), HashMap<String, yaml|json|model>: same verdict (unoptimised and default-optimised) and same find() on every path; 12 000 / 300 000 typed HashMap<String, T> documents for 28 std types: value kind, numeric value and signedness preserved and ~25 discriminating rules agree with the same data as a hand-written Object.",
@@ -43,7 +43,7 @@ CHECKS = {
    text="16 000 / 400 000 rules (optimised or not) with generated true_positives/true_negatives carrying unique markers and occasional non-mapping entries: validate() is Ok(true) iff matches() agrees with every example, otherwise a Validation error naming exactly the failing examples; never a panic.",
    note="Markers are fields the rule never addresses.", ref="DESIGN.md 4 C13"),
  "C14": dict(tech="round-trip property-based testing (serialise / reload / compare structure and verdicts) with quoting-sensitive string injection",
-   text="10 000 / 300 000 rules with quoting-sensitive scalars and spaced conditions: from_str and from_value agree; to_string of the rule (as loaded and after optimise) parses to the same condition, identifiers and examples, reloads, gives the original verdicts on every document, and a second round trip is a fixed point.",
+   text="10 000 / 300 000 rules with quoting-sensitive scalars and spaced conditions: from_str and from_value agree; to_string of the rule (as loaded and after optimise) parses to the same condition, identifiers and examples, reloads, gives the original verdicts on every document, and a second round trip is a fixed point. Curated case / cast twins and key-order twins (identifiers equal as YAML values, different as rules) followed through six serialise-and-load generations.",
    note="Identifier names are YAML strings.", ref="DESIGN.md 4 C14"),
  "C15": dict(tech="differential property-based testing between two builds (default vs ignore_case cargo feature) plus reference in ignore_case mode",
    text="8 000 / 250 000 rules x 12 documents (6 recipes and their case-swapped copies): the ignore_case build on the rule as written equals the default build on the rule with every string pattern i-prefixed, and is admissible for the reference in ignore_case mode.",
